@@ -44,4 +44,40 @@ PROPS = {
         "hand_modelled": ['src/traits/sig_core.rs, sig_basic.rs, sig_aug.rs, sig_pop.rs, sig_multi.rs, pk_multi.rs and the wrapper dispatch of src/{secret_key,signature,aggregate_signature,multi_signature,multi_public_key,proof_of_possession}.rs (coq/Model/Core.v, Api.v), tied by the correspondence run'],
         "assumptions": ["reduction form for 'rejected for every other key'"],
     },
+    "C04": {
+        "rule": 'correspondence: generated cases (honest tuples and every perturbation class of the property, both group assignments, all schemes) through the hooked library and the extracted model, distinct = distinct case lines; search: un-hooked API against expectations from the property text and a reference on the other backend, distinct = distinct (class, input) pairs',
+        "trusted_base": [],
+        "hand_modelled": ['every verify / decrypt / sign entry point of src/traits/*.rs and its wrapper (coq/Model)'],
+        "assumptions": [],
+    },
+    "C10": {
+        "rule": 'correspondence: generated cases (honest tuples and every perturbation class of the property, both group assignments, all schemes) through the hooked library and the extracted model, distinct = distinct case lines; search: un-hooked API against expectations from the property text and a reference on the other backend, distinct = distinct (class, input) pairs',
+        "trusted_base": [],
+        "hand_modelled": ['src/traits/sig_proof.rs, src/proof_commitment.rs, src/proof_of_knowledge.rs (coq/Model/Protocols.v, Api.v); the clock is an explicit argument now_ns'],
+        "assumptions": ['clock not before the epoch; hash_to_scalar output non-zero (else the retry loop of scalar_from_hkdf_bytes never ends: stated, unreachable without a SHA-256 preimage)', 'KNOWN FINDING: MessageAugmentation proofs of knowledge are incomplete (C10_aug_incomplete)'],
+    },
+    "C11": {
+        "rule": 'correspondence: generated cases (honest tuples and every perturbation class of the property, both group assignments, all schemes) through the hooked library and the extracted model, distinct = distinct case lines; search: un-hooked API against expectations from the property text and a reference on the other backend, distinct = distinct (class, input) pairs',
+        "trusted_base": [],
+        "hand_modelled": ['src/traits/sign_crypt.rs, src/sign_crypt_ciphertext.rs, PublicKey::sign_crypt, uint-zigzag varint (coq/Model/Protocols.v, Varint.v, Api.v)'],
+        "assumptions": ['messages shorter than 2^64 bytes', 'seal side conditions: r != 0, hash point != identity, 32-byte keystream not all zero (debug assertions of the code)', 'KNOWN FINDING: wrong-key decryption of the empty message returns the empty message with probability 1/256'],
+    },
+    "C12": {
+        "rule": 'correspondence: generated cases (honest tuples and every perturbation class of the property, both group assignments, all schemes) through the hooked library and the extracted model, distinct = distinct case lines; search: un-hooked API against expectations from the property text and a reference on the other backend, distinct = distinct (class, input) pairs',
+        "trusted_base": [],
+        "hand_modelled": ['as C11 plus SignDecryptionShare, SignCryptDecryptionKey and vsss-rs combination'],
+        "assumptions": ['EmbedLaw (identifiers 1..255 distinct and non-zero in the field)'],
+    },
+    "C13": {
+        "rule": 'correspondence: generated cases (honest tuples and every perturbation class of the property, both group assignments, all schemes) through the hooked library and the extracted model, distinct = distinct case lines; search: un-hooked API against expectations from the property text and a reference on the other backend, distinct = distinct (class, input) pairs',
+        "trusted_base": [],
+        "hand_modelled": ['src/traits/time_crypt.rs, src/time_crypt_ciphertext.rs, PublicKey::encrypt_time_lock (coq/Model/Protocols.v, Api.v)'],
+        "assumptions": ['reduction form: an altered ciphertext opens to another message only at a collision of H_Zq or SHA-256'],
+    },
+    "C14": {
+        "rule": 'correspondence: generated cases (honest tuples and every perturbation class of the property, both group assignments, all schemes) through the hooked library and the extracted model, distinct = distinct case lines; search: un-hooked API against expectations from the property text and a reference on the other backend, distinct = distinct (class, input) pairs',
+        "trusted_base": [],
+        "hand_modelled": ['src/traits/elgamal.rs, src/elgamal_*.rs, PublicKey::encrypt_key_el_gamal* (coq/Model/Protocols.v, Api.v); merlin transcript as the oracle fs'],
+        "assumptions": ['reduction form: a modified tuple verifies only at a Fiat-Shamir collision'],
+    },
 }
